@@ -1015,7 +1015,7 @@ def build_T15j(tree):
         if needle not in cdt:
             raise Unsupported(f'ContentSequence._check_dataset: `{needle}` not found')
     # the parsers
-    asserts, stores = [], []
+    asserts, stores, other_calls = [], [], []
     for cls in [n for n in tree.body if isinstance(n, ast.ClassDef)]:
         for fn in [n for n in cls.body if isinstance(n, ast.FunctionDef) and n.name in ('from_dataset', '_from_dataset_base')]:
             if cls.name == 'ContentSequence':
@@ -1035,22 +1035,57 @@ def build_T15j(tree):
                     raise Unsupported(f'{cls.name}.from_dataset: the copy / no-copy head changed')
             eff = _effects(b, (), [])
             local_defs = {t: v for kind, t, c, v in eff if kind == 'name'}
+            import re as _re
             for kind, t, c, v in eff:
                 if kind not in ('attr', 'item'):
                     continue
                 expanded = v
                 for _ in range(3):
                     for nm, d in local_defs.items():
-                        expanded = __import__('re').sub(r'\b' + nm + r'\b', '(' + d + ')', expanded) if nm not in ('item', 'dataset', 'dataset_copy') else expanded
-                stores.append((cls.name, t, _dicom_keywords(' ' + t), _dicom_keywords(' ' + expanded)))
+                        expanded = _re.sub(r'\b' + nm + r'\b', '(' + d + ')', expanded) if nm not in ('item', 'dataset', 'dataset_copy') else expanded
+                # what the store does to the VALUE of the attribute it stores to
+                flat = expanded.replace('(', '').replace(')', '').replace(' ', '')
+                tflat = t.replace(' ', '')
+                rewrap = ['[CodedConcept.from_dataset' + tflat + '[0],copy=False]',
+                          'DataElementSequence[CodedConcept.from_dataset' + tflat + '[0],copy=False]']
+                if t == 'item.__class__' and v == 'cls':
+                    action = 'class'
+                elif t == 'dataset.ConceptNameCodeSequence' and v == '[default_name]':
+                    action = 'default-name'
+                elif t == 'item.ContentSequence' and v == 'ContentSequence.from_sequence(item.ContentSequence, copy=False)':
+                    action = 'children'
+                elif flat in rewrap:
+                    action = 'rewrap'
+                else:
+                    action = 'other: ' + v
+                stores.append((cls.name, t, _dicom_keywords(' ' + t), _dicom_keywords(' ' + expanded), action))
+            # every call of the parser that is not one of the known pure / constructing ones (a method call on the data set could
+            # change it without an assignment: pop, update, __delitem__, setattr, ...)
+            known = {'deepcopy', '_assert_value_type', 'super()._from_dataset_base', 'super', 'cast', 'hasattr', 'CodedConcept.from_dataset',
+                     'ContentSequence.from_sequence', 'DataElementSequence', 'CodedConcept', 'AttributeError'}
+            for n in ast.walk(fn):
+                if isinstance(n, ast.Call) and _norm(n.func) not in known:
+                    other_calls.append((cls.name, fn.name, _norm(n)))
             shas.append(_norm(fn))
+    # the helpers the parsers call on the data set: they must store nothing at all
+    for qual in ('_assert_value_type', 'ContentSequence._check_dataset', 'ContentItem._from_dataset_derived', 'ContentSequence.from_sequence'):
+        hf = find_func(tree, qual)
+        for kind, t, c, v in _effects(strip_doc(hf.body), (), []):
+            if kind in ('attr', 'item') and not t.startswith('self.'):
+                stores.append(('helper:' + qual, t, _dicom_keywords(' ' + t), _dicom_keywords(' ' + v), 'other: ' + v))
+        shas.append(_norm(hf))
     texts.append(lean_table('srParserAsserts', 'List (String × String)', ['(' + q(a) + ', ' + q(b) + ')' for a, b in asserts],
                             doc='(class, value type) asserted by the `from_dataset` of every content item class'))
-    texts.append(lean_table('srParserStores', 'List (String × String × List String × List String)',
-                            ['(' + q(a) + ', ' + q(b) + ', [' + ', '.join(q(x) for x in c) + '], [' + ', '.join(q(x) for x in d) + '])'
-                             for a, b, c, d in stores],
-                            doc='(class, target, DICOM keywords of the target path, DICOM keywords read by the stored value) of every '
-                                'attribute store of the content item parsers'))
+    texts.append(lean_table('srParserStores', 'List (String × String × List String × List String × String)',
+                            ['(' + q(a) + ', ' + q(b) + ', [' + ', '.join(q(x) for x in c) + '], [' + ', '.join(q(x) for x in d) + '], ' + q(e) + ')'
+                             for a, b, c, d, e in stores],
+                            doc='(class, target, DICOM keywords of the target path, DICOM keywords read by the stored value, what the store does '
+                                'to the value: class | default-name | children | rewrap | other: <expression>) of every attribute store of '
+                                'the content item parsers'))
+    texts.append(lean_table('srParserOtherCalls', 'List (String × String × String)',
+                            ['(' + ', '.join(q(x) for x in row) + ')' for row in other_calls],
+                            doc='(class, method, call) of every call in a content item parser that is not one of the known pure / constructing '
+                                'calls - a method call on the data set could change it without an assignment'))
     return '\n\n'.join(texts), hashlib.sha256(''.join(shas).encode()).hexdigest()
 
 
